@@ -308,3 +308,16 @@ void bad_rand_source__time__rand_bytes(uint8_t *buf, size_t size) {
 	rand_inc(ctx->rand, len + 1, ctx->counter);
 	ctx->counter = ctx->counter + 1;
 }
+
+/* the block counter is assumed to fit two bytes */
+static void bad_drbg_carry__ripple(uint8_t *out, size_t out_len) {
+	uint8_t hash[RLC_MD_LEN], data[ST_LEN];
+	memcpy(data, core_get()->rand + 1, ST_LEN);
+	for (size_t i = 0; i < out_len; i += RLC_MD_LEN) {
+		md_map(hash, data, sizeof(data));
+		memcpy(out + i, hash, RLC_MD_LEN);
+		if (++data[sizeof(data) - 1] == 0) {
+			++data[sizeof(data) - 2];
+		}
+	}
+}
